@@ -63,6 +63,8 @@ type mdTable struct {
 	hasDev    bool
 	hasState  bool
 	slots     []mdSlot // in the order ToMesg emits them
+	// behaviours the table cannot express; the table is then the closest description and `C13_tables_expressible` fails
+	anoms []string
 }
 
 var (
@@ -549,6 +551,7 @@ func buildTable(rc regCtor) (*mdTable, error) {
 	fail := func(f string, a ...any) (*mdTable, error) {
 		return nil, fmt.Errorf("mesgdef.%s: %s", rc.name, fmt.Sprintf(f, a...))
 	}
+	anom := func(f string, a ...any) { t.anoms = append(t.anoms, fmt.Sprintf(f, a...)) }
 	ct := t.ctor.Type()
 	if ct.Kind() != reflect.Func || ct.NumIn() != 1 || ct.NumOut() != 1 || ct.Out(0).Kind() != reflect.Ptr {
 		return fail("constructor has an unexpected signature")
@@ -624,7 +627,7 @@ func buildTable(rc regCtor) (*mdTable, error) {
 			unknownFrom = k
 		}
 		if !isUnknown && unknownFrom >= 0 {
-			return fail("field number %d is stored although %d goes to UnknownFields (no single guard)", k, unknownFrom)
+			anom("field number %d is stored although %d goes to UnknownFields (no single guard)", k, unknownFrom)
 		}
 	}
 	if unknownFrom >= 0 {
@@ -632,7 +635,7 @@ func buildTable(rc regCtor) (*mdTable, error) {
 	}
 	for _, k := range t.panics {
 		if k >= t.guard {
-			return fail("Reset panics on field number %d at or above the guard %d", k, t.guard)
+			anom("Reset panics on field number %d at or above the guard %d", k, t.guard)
 		}
 	}
 	isPanic := map[int]bool{}
@@ -695,6 +698,19 @@ func buildTable(rc regCtor) (*mdTable, error) {
 	}
 
 	// ---- which number ToMesg emits for each struct field, with which value type; emission order
+	baseline := t.toMesg(t.newStruct(nil), inclExpanded)
+	if len(baseline.Fields) != 0 {
+		anom("the struct after Reset(nil) converts to %d fields (first: number %d)", len(baseline.Fields), baseline.Fields[0].Num)
+	}
+	inBaseline := func(f *proto.Field) bool {
+		for i := range baseline.Fields {
+			b := &baseline.Fields[i]
+			if b.FieldBase != nil && f.FieldBase != nil && b.Num == f.Num && printValue(b.Value) == printValue(f.Value) {
+				return true
+			}
+		}
+		return false
+	}
 	full := t.newStruct(nil)
 	for i := range slots {
 		sl := &slots[i]
@@ -709,12 +725,18 @@ func buildTable(rc regCtor) (*mdTable, error) {
 			}
 		}
 		m := t.toMesg(s, inclExpanded)
-		if len(m.Fields) != 1 || m.Fields[0].FieldBase == nil {
-			return fail("a struct with only %s set converts to %d fields", sl.goName, len(m.Fields))
+		var fresh []proto.Field
+		for j := range m.Fields {
+			if m.Fields[j].FieldBase != nil && !inBaseline(&m.Fields[j]) {
+				fresh = append(fresh, m.Fields[j])
+			}
 		}
-		sl.num = int(m.Fields[0].Num)
-		if got := m.Fields[0].Value.Type(); got != sl.ptype {
-			return fail("field %s accepts %s but emits %s", sl.goName, sl.ptype, got)
+		if len(fresh) != 1 {
+			return fail("a struct with only %s set converts to %d new fields", sl.goName, len(fresh))
+		}
+		sl.num = int(fresh[0].Num)
+		if got := fresh[0].Value.Type(); got != sl.ptype {
+			anom("field %s accepts %s but emits %s", sl.goName, sl.ptype, got)
 		}
 		if fb := factory.StandardFactory().CreateField(t.num, byte(sl.num)); fb.Name != factory.NameUnknown {
 			sl.baseType = byte(fb.BaseType)
@@ -724,19 +746,20 @@ func buildTable(rc regCtor) (*mdTable, error) {
 	if len(fm.Fields) != len(slots) {
 		return fail("fully populated struct converts to %d fields, %d slots", len(fm.Fields), len(slots))
 	}
-	byNum := map[int]*mdSlot{}
-	for i := range slots {
-		if byNum[slots[i].num] != nil {
-			return fail("fields %s and %s are both emitted as number %d", byNum[slots[i].num].goName, slots[i].goName, slots[i].num)
-		}
-		byNum[slots[i].num] = &slots[i]
-	}
+	used := make([]bool, len(slots))
 	for _, f := range fm.Fields {
-		sl := byNum[int(f.Num)]
-		if sl == nil {
-			return fail("emission order: unexpected field number %d", f.Num)
+		found := -1
+		for i := range slots {
+			if !used[i] && f.FieldBase != nil && slots[i].num == int(f.Num) {
+				found = i
+				break
+			}
 		}
-		t.slots = append(t.slots, *sl)
+		if found < 0 {
+			return fail("emission order: unexpected field number %v", f.FieldBase)
+		}
+		used[found] = true
+		t.slots = append(t.slots, slots[found])
 	}
 
 	// ---- validity rule per slot
@@ -765,38 +788,43 @@ func buildTable(rc regCtor) (*mdTable, error) {
 				}
 			}
 			if len(om) != 1 {
-				return fail("field %s: ToMesg omits %d of the candidate contents %v (expected exactly one sentinel)", sl.goName, len(om), om)
+				anom("field %s: ToMesg omits %d of the candidate contents %v (expected exactly one sentinel)", sl.goName, len(om), om)
 			}
-			sl.sentinel = scalarValue(sl.ptype, om[0])
+			if len(om) >= 1 {
+				sl.sentinel = scalarValue(sl.ptype, om[0])
+			} else {
+				sl.sentinel = sl.dflt
+			}
 		case "bool":
 			for c := uint64(0); c < 256; c++ {
 				c := c
 				if omitted(func(f reflect.Value) { setBits(f, c) }) != (c >= 2) {
-					return fail("bool field %s: content %d is not treated as `< 2`", sl.goName, c)
+					anom("bool field %s: content %d is not treated as `< 2`", sl.goName, c)
+					break
 				}
 			}
 		case "str":
 			for _, c := range []string{"", "a", "\x00", " "} {
 				c := c
 				if omitted(func(f reflect.Value) { f.SetString(c) }) != (c == "") {
-					return fail("string field %s: content %q is not treated as `!= \"\"`", sl.goName, c)
+					anom("string field %s: content %q is not treated as `!= \"\"`", sl.goName, c)
 				}
 			}
 		case "time":
 			for _, d := range []int64{-1 << 30, -1, 0, 1, 1 << 31} {
 				d := d
 				if omitted(func(f reflect.Value) { f.Set(reflect.ValueOf(datetime.Epoch().Add(time.Duration(d) * time.Second))) }) != (d < 0) {
-					return fail("time field %s: epoch%+ds is not treated as `!Before(epoch)`", sl.goName, d)
+					anom("time field %s: epoch%+ds is not treated as `!Before(epoch)`", sl.goName, d)
 				}
 			}
 			if !omitted(func(f reflect.Value) { f.Set(reflect.ValueOf(time.Time{})) }) {
-				return fail("time field %s: time.Time{} is emitted", sl.goName)
+				anom("time field %s: time.Time{} is emitted", sl.goName)
 			}
 		case "slice":
 			if !omitted(func(f reflect.Value) { f.Set(reflect.Zero(f.Type())) }) ||
 				omitted(func(f reflect.Value) { f.Set(reflect.MakeSlice(f.Type(), 0, 0)) }) ||
 				omitted(func(f reflect.Value) { f.Set(reflect.MakeSlice(f.Type(), 1, 1)) }) {
-				return fail("slice field %s is not treated as `!= nil`", sl.goName)
+				anom("slice field %s is not treated as `!= nil`", sl.goName)
 			}
 		case "fixed":
 			all := ^uint64(0) >> (64 - 8*uint(sl.width))
@@ -804,31 +832,46 @@ func buildTable(rc regCtor) (*mdTable, error) {
 			if len(dflt) != sl.n {
 				return fail("array field %s: default has %d elements", sl.goName, len(dflt))
 			}
+			sl.sentinel = sl.dflt
 			if !omitted(func(f reflect.Value) { setSlotContent(sl, f, sl.dflt) }) {
-				return fail("array field %s: the content after Reset(nil) is emitted", sl.goName)
+				// the content after Reset(nil) is emitted: look for the array ToMesg compares with among the uniform ones
+				found := false
+				for _, c := range []uint64{all, 0, all >> 1} {
+					xs := make([]uint64, sl.n)
+					for i := range xs {
+						xs[i] = c
+					}
+					if omitted(func(f reflect.Value) { setSlotContent(sl, f, sliceValue(sl.ptype, xs)) }) {
+						sl.sentinel, found = sliceValue(sl.ptype, xs), true
+						break
+					}
+				}
+				if !found {
+					anom("array field %s: the content after Reset(nil) is emitted and no uniform array is omitted", sl.goName)
+				}
 			}
+			sent := valueElems(sl.sentinel)
 			for pos := 0; pos < sl.n; pos++ {
 				for _, c := range []uint64{0, 1, all, all >> 1, all - 1} {
-					if c == dflt[pos] {
+					if c == sent[pos] {
 						continue
 					}
-					xs := append([]uint64(nil), dflt...)
+					xs := append([]uint64(nil), sent...)
 					xs[pos] = c
 					if omitted(func(f reflect.Value) { setSlotContent(sl, f, sliceValue(sl.ptype, xs)) }) {
-						return fail("array field %s: a content differing from the default at [%d] is omitted", sl.goName, pos)
+						anom("array field %s: a content differing from the sentinel at [%d] is omitted", sl.goName, pos)
 					}
 				}
 			}
-			sl.sentinel = sl.dflt
 		case "fixedstr":
 			if !omitted(func(f reflect.Value) { setSlotContent(sl, f, sl.dflt) }) {
-				return fail("array field %s: the content after Reset(nil) is emitted", sl.goName)
+				anom("array field %s: the content after Reset(nil) is emitted", sl.goName)
 			}
 			for pos := 0; pos < sl.n; pos++ {
 				ss := append([]string(nil), sl.dflt.SliceString()...)
 				ss[pos] = "a"
 				if omitted(func(f reflect.Value) { setSlotContent(sl, f, proto.SliceString(ss)) }) {
-					return fail("array field %s: a content differing from the default at [%d] is omitted", sl.goName, pos)
+					anom("array field %s: a content differing from the default at [%d] is omitted", sl.goName, pos)
 				}
 			}
 			sl.sentinel = sl.dflt
@@ -843,10 +886,10 @@ func buildTable(rc regCtor) (*mdTable, error) {
 			if sl := slotByNum(t, k); sl != nil {
 				sl.canExpand = ok
 			} else if ok {
-				return fail("MarkAsExpandedField accepts %d, which is not a slot", k)
+				anom("MarkAsExpandedField accepts %d, which is not a slot", k)
 			}
 			if ok != t.isExpandedField(s, k) {
-				return fail("IsExpandedField(%d) does not return the mark just set", k)
+				anom("IsExpandedField(%d) does not return the mark just set", k)
 			}
 		}
 		boundFrom := -1
@@ -861,7 +904,7 @@ func buildTable(rc regCtor) (*mdTable, error) {
 				boundFrom = k
 			}
 			if marked && boundFrom >= 0 {
-				return fail("Reset marks %d as expanded but not %d (no single bound)", k, boundFrom)
+				anom("Reset marks %d as expanded but not %d (no single bound)", k, boundFrom)
 			}
 		}
 		if boundFrom < 0 {
@@ -870,7 +913,7 @@ func buildTable(rc regCtor) (*mdTable, error) {
 		t.markBound = boundFrom
 		for k := t.guard; k < 256; k++ {
 			if t.isExpandedField(t.newStruct(nil), k) {
-				return fail("IsExpandedField(%d) is true on a fresh struct", k)
+				anom("IsExpandedField(%d) is true on a fresh struct", k)
 			}
 		}
 	}
@@ -888,7 +931,7 @@ func buildTable(rc regCtor) (*mdTable, error) {
 		m1 := t.toMesg(s, &mesgdef.Options{Factory: factory.StandardFactory()})
 		m2 := t.toMesg(s, inclExpanded)
 		if (len(m1.Fields) == 0) != marked || len(m2.Fields) != 1 || m2.Fields[0].IsExpandedField != marked {
-			return fail("field %s: expanded mark %v, but ToMesg emits %d / %d fields (flag %v)", sl.goName, marked, len(m1.Fields), len(m2.Fields), len(m2.Fields) == 1 && m2.Fields[0].IsExpandedField)
+			anom("field %s: expanded mark %v, but ToMesg emits %d / %d fields (flag %v)", sl.goName, marked, len(m1.Fields), len(m2.Fields), len(m2.Fields) == 1 && m2.Fields[0].IsExpandedField)
 		}
 	}
 	return t, nil
